@@ -42,7 +42,13 @@ def shadow_part(chk, env, shadows, n_hist):
             tag, sh = shadows[h % len(shadows)]
         else:
             tag, sh = "toy", sc.random_toy(chk.rng)
-        rn = sc.Runner(env, sh, chk.rng)
+        try:
+            rn = sc.Runner(env, sh, chk.rng)
+        except Exception as e:  # noqa  — the real classes refuse (or cannot build) a graph the generator knows to be valid
+            chk.impl_failure({"kind": "shadow-build", "family": tag, "nodes": sh.line_nodes()},
+                             f"valid variable definitions cannot be built into a graph / state: {type(e).__name__}: {str(e)[:160]}")
+            chk.case(("shadow-build", h, tag), nontrivial=True, tags={"family": tag, "build": "refused"})
+            continue
         try:
             decisions = sampler_history_checked(rn, chk.rng.randrange(3, 12))
         except Exception as e:  # noqa  — every call into leaspy is wrapped (Runner.call): this is a harness bug
